@@ -62,7 +62,7 @@ def generate(streams: Streams, tier: str, index: int) -> dict:
         method = crng.choice(["overlap", "distance"])
         cfg = {"method": method, "grid": crng.random() < 0.65}
         if method == "distance":
-            cfg["max_dist"] = crng.choice([None, None, "inf", 0, 0.5, 1.0, 2.5, 6.0, 1000.0])
+            cfg["max_dist"] = crng.choice([None, None, "inf", 0, 0.5, 1.0, 2.5, 6.0, 1000.0, -1])
         configs.append(cfg)
     return {"history": hist, "configs": configs}
 
